@@ -208,6 +208,22 @@ def run(tier, seed):
                 p = [0.4 * x / max(1e-9, max(abs(v) for v in p)) for x in p]
             eps, suc, tol = 0.0, float(rng.choice([1.0, 0.95])), float(rng.choice([1e-8, 1e-9]))
             run_one(ctx, A, C, p, kind + "/eps=0", eps, suc, tol, so, None, {"poly": p, "kind": kind + "/eps=0", "eps": eps, "suc": suc, "tolerance": tol, "signal_operator": so})
+    # a highest coefficient that the capitalisation term eps/2 x^d nearly or exactly cancels (p_d = -f eps/2): the target
+    # suc (p + eps/2 x^d) then has a tiny or vanishing highest coefficient; whatever is returned must have d+1 phases and
+    # realise THAT target (eps well above 100 tol, so the sign and size of the capitalisation are visible)
+    for d in (2, 3, 4, 5, 6, 8):
+        for eps in (1e-2, 2e-3):
+            for f_ in (1.0, 0.8, 1.2, 0.55, 1.45, 0.999):
+                so = str(rng.choice(["Wx", "Wz"]))
+                c = np.zeros(d + 1)
+                for i in range(d % 2, d, 2):
+                    c[i] = float(rng.uniform(-1, 1))
+                c = c / max(1e-9, np.abs(c).sum()) * float(rng.uniform(0.2, 0.6))
+                pm = P.mono_from_cheb(list(c))
+                pm[d] = -f_ * eps / 2
+                kind = "highest-coefficient-near-minus-eps/2" + ("/exact" if f_ == 1.0 else "")
+                run_one(ctx, A, C, [float(x) for x in pm], kind, eps, 0.99, 1e-6, so, None,
+                        {"poly": [float(x) for x in pm], "kind": kind, "eps": eps, "suc": 0.99, "tolerance": 1e-6, "signal_operator": so})
     ctx.assumptions = [
         "which inputs the floating-point pipeline completes on is explored, not proved; every RETURNED result is judged by the proven validator",
         "cos/sin of the returned phases enclosed at %d bits (QSP/Proofs/Trig.lean)" % P.BITS,
